@@ -76,6 +76,7 @@ TgtClose(how) ==
   /\ UNCHANGED <<phase, want, reach, dials, sentUp, gotUp, sentDown, gotDown, appClosed, cleanApp, appSaw, tgtSaw, fault>>
 
 Fault ==
+  /\ phase = "open" /\ ~fault
   /\ fault' = TRUE
   /\ UNCHANGED <<phase, want, reach, dials, sentUp, gotUp, sentDown, gotDown, appClosed, tgtClosed, cleanApp, cleanTgt, appSaw, tgtSaw>>
 
@@ -144,6 +145,9 @@ Quiesce(waitedApp, waitedTgt) ==
   /\ (waitedApp /\ tgtClosed # "no") => appSaw # "no"
   /\ (waitedApp /\ reach # "ok" /\ sentUp > 0) => appSaw # "no"
   /\ (waitedTgt /\ Dialed /\ appClosed # "no") => tgtSaw # "no"
+  \* C15: the link between client and server closed or failed - both outer sides observe an end
+  /\ (waitedApp /\ fault) => appSaw # "no"
+  /\ (waitedTgt /\ Dialed /\ fault) => tgtSaw # "no"
   /\ UNCHANGED vars
 
 =============================================================================
